@@ -792,6 +792,21 @@ class RegionTranslator:
                 a = self.expr(e.args[0], env)
                 lst, _ = self.as_list(a, e.args[0], 'len')
                 return self.seq([lst], lambda c: 'zlen %s' % paren(c[0]), Z)
+            if name in ('min', 'max') and len(e.args) == 2 and not e.keywords:
+                a, b = self.expr(e.args[0], env), self.expr(e.args[1], env)
+                fn = 'Z.min' if name == 'min' else 'Z.max'
+                if a.ty == Z and b.ty == Z:
+                    return self.seq([a, b], lambda c: '%s %s %s' % (fn, paren(c[0]), paren(c[1])), Z)
+                # comparing an int with None raises TypeError
+                if a.ty == Z and b.ty == OPT(Z):
+                    c0 = self.site('TypeError', e)
+                    return self.seq([a, b], lambda c: 'match %s with None => %s | Some v_ => OK (%s %s v_) end'
+                                    % (c[1], c0, fn, paren(c[0])), Z, pure_result=False)
+                if a.ty == OPT(Z) and b.ty == Z:
+                    c0 = self.site('TypeError', e)
+                    return self.seq([a, b], lambda c: 'match %s with None => %s | Some v_ => OK (%s v_ %s) end'
+                                    % (c[0], c0, fn, paren(c[1])), Z, pure_result=False)
+                raise Refuse('%s of %r and %r (line %d)' % (name, a.ty, b.ty, e.lineno))
             if name == 'any' and len(e.args) == 1 and isinstance(e.args[0], ast.GeneratorExp):
                 g = e.args[0]
                 lst, ety, var, env2, conds = self.comp_parts(g.generators, env, g)
